@@ -13,5 +13,5 @@ PROP = dict(
     assumptions=TRUST + ['thread interleavings are sampled'],
     bins=[rc('C19_observer', 'harness/C19_observer.cpp', None, extra_src=SRC),
           rc('C19_observer_tsan', 'harness/C19_observer.cpp', None, extra_src=SRC, cxx='g++', san='-fsanitize=thread -fno-omit-frame-pointer',
-             flags='-DC19_BIN=\\"C19_observer_tsan\\"', quick=dict(scale=0.4), thorough=dict(scale=4, seeds=4))],
+             flags='-DC19_TSAN -DC19_BIN=\\"C19_observer_tsan\\"', quick=dict(scale=0.4), thorough=dict(scale=4, seeds=4))],
 )
